@@ -385,5 +385,6 @@ pub fn enumerated(index: usize, singles_only: bool) -> Option<C11Scenario> {
         hash_seed: 23 + index as u64,
         alt_walk_seed: 101 + index as u64,
         alt_hash_seed: 211 + index as u64,
+        keep_bad_in_reference: false,
     })
 }
